@@ -29,6 +29,8 @@ def interval_ranges(sp, size):
     pts = M.grid_pts(g)
     cuts = pd.date_range(start=M.tstamp(g['start'], tz), end=M.tstamp(g['end'], tz), freq=size, tz=tz)
     cuts = [int(p.value // 10 ** 9) for p in cuts] + [M.inst(g['end'], tz)]
+    if cuts[0] > M.inst(g['start'], tz):
+        cuts = [M.inst(g['start'], tz)] + cuts          # anchored interval sizes ('W', 'MS'): the stretch before the first anchor is an interval
     out = []
     for lo, hi in zip(cuts[:-1], cuts[1:]):
         st = [t for t in range(len(pts) - 1) if lo <= pts[t] < hi]
@@ -58,6 +60,19 @@ def run(ctx):
         sp['opts']['split'] = {'h': '3h', '30min': '2h'}[sp['grid']['freq']]
     specs += gap
     specs += util.split_twin_specs(ctx.seed, 10 if ctx.tier == 'quick' else 60, 'c14tw_')
+    # interval sizes anchored in the calendar (weeks) on horizons that do not start on the anchor
+    wk = gen.gen_many(ctx.seed, n // 6, dict(CFG, freqs=['d'], tzs=[None], T=(9, 18), n_assets=(1, 3), p_unaligned_end=0.0,
+                                             kinds={'SimpleContract': 3, 'Transport': 2, 'Storage': 2, 'Contract': 1}), 'c14wk_')
+    for sp in wk:
+        sp['opts']['split'] = 'W'
+    specs += wk
+    # nodes left out of the nodal restrictions (skip_nodes) in both the unsplit and the split set-up
+    sk = gen.gen_many(ctx.seed, n // 5, dict(CFG, nodes=(2, 3), p_market=0.6, n_assets=(2, 4)), 'c14sk_')
+    for sp in sk:
+        rng = random.Random(str(sp['seed']) + '/skip')
+        sp['opts']['split'] = {'h': '3h', '30min': '2h'}[sp['grid']['freq']]
+        sp['opts']['skip_nodes'] = [rng.choice(sorted(set(nn for a in sp['assets'] for nn in a['nodes'])))]
+    specs += sk
     specs += util.orderbook_tail_specs(ctx.seed, 8 if ctx.tier == 'quick' else 50, 'c14ob_')
     specs = ctx.specs(specs)
     res = C.run_impl('portfolio', specs)
